@@ -14,15 +14,15 @@ Funcs == ndJsonDeserialize(FuncFile)        \* [name, min, max, exp]
 
 (* boundary pool: source fragments usable as receivers and arguments.  %nonascii, %multi, %cx, %node are environment *)
 (* variables the harness binds to a non-ASCII string, a two-item collection, a complex element and a resource.       *)
-Pool == <<"0", "1", "(-1)", "2", "2147483647", "(-2147483647 - 1)", "46341", "0.0", "1.5", "(-0.5)",
+Pool == <<"0", "1", "(-1)", "2", "2147483647", "(-2147483647 - 1)", "46341", "309", "2001", "0.0", "1.5", "(-0.5)", "(-10.0)", "(-1.5)", "0.5",
           "1000000000000000000000000000000.0", "0.000000000000000000000000000001", "12345678901234567890.123456789",
           "true", "false", "''", "'abc'", "%nonascii", "'1'", "'2020-01-01'", "'1 mg'",
           "@2020", "@2020-02", "@2020-02-29", "@9999-12-31", "@0001-01-01", "@2020T", "@2020-02-29T23:59:59.999+14:00",
           "@2020-02-29T00:00:00-12:00", "@2020-02-29T10", "@T00", "@T23:59:59.999", "@T12:30",
           "1 'mg'", "1 year", "(-5 days)", "0 'mg'", "1000000 years",
           "{}", "%multi", "%cx", "%node", "Patient.name", "Patient.birthDate", "Patient.active", "Patient.telecom.rank", "Patient.photo">>
-ArgsA == <<"0", "(-1)", "2147483647", "(-2147483647 - 1)", "1.5", "0.0", "true", "''", "'abc'", "%nonascii", "@2020", "@T12:30", "1 'mg'", "{}", "%multi", "%cx">>
-ArgsB == <<"0", "(-1)", "2147483647", "''", "'abc'", "{}", "%multi", "1.5">>
+ArgsA == <<"0", "1", "(-1)", "309", "2001", "2147483647", "(-2147483647 - 1)", "1.5", "0.0", "true", "''", "'abc'", "%nonascii", "@2020", "@T12:30", "1 'mg'", "{}", "%multi", "%cx">>
+ArgsB == <<"0", "1", "2", "(-1)", "2147483647", "(-2147483647 - 1)", "''", "'abc'", "{}", "%multi", "1.5">>
 ArgsC == <<"true", "{}", "1", "%multi">>
 
 BinOps == <<"+", "-", "*", "/", "div", "mod", "&", "=", "!=", "<", "<=", ">", ">=", "and", "or", "xor", "implies", "~", "!~", "|", "in", "contains">>
